@@ -153,9 +153,20 @@ class Engine(ExprMixin, StmtMixin, CallMixin, EngineBase):
         entry = st.fork()
         self.entry_state = entry
         outcomes = []
+        decos = [d.id if isinstance(d, ast.Name) else getattr(d, "attr", "") for d in fdef.decorator_list]
         for s in self.exec_ghost(con.ghost_entry, st):
             s.old = entry.old
-            outcomes.extend(self.exec_block(fdef.body, s))
+            if "requires_connection" in decos:
+                # the decorator's wrapper: `if not self.connected: raise NotConnectedError`
+                self.lib.use("@requires_connection: raises NotConnectedError unless self.connected, then calls the function")
+                cz = self.truth(self.load_field(s, s.locals["self"], "_connected"))
+                for s2, ok in self.split(s, cz):
+                    if ok:
+                        outcomes.extend(self.exec_block(fdef.body, s2))
+                    else:
+                        outcomes.append((s2, ("raise", Exc("NotConnectedError", "requires_connection", fdef.lineno))))
+            else:
+                outcomes.extend(self.exec_block(fdef.body, s))
         n_normal = 0
         for s, oc in outcomes:
             if oc[0] in ("normal", "return"):
